@@ -3,7 +3,7 @@
 id=$1; wt=$2
 out=/verif/seeded/$id; mkdir -p $out
 cd $wt || exit 1
-git diff -- oxmpl/src oxmpl-py/src > $out/patch.diff
+git diff HEAD -- oxmpl/src oxmpl-py/src > $out/patch.diff
 cp oxmpl-py/tests/seeded_demo.py $out/seeded_demo.py
 [ -s $out/patch.diff ] || { echo "empty patch"; exit 1; }
 build() { cargo build -p oxmpl-py --release --offline --features oxmpl/verif 2>&1 | tail -1; mkdir -p target/pyext_confirm && cp target/release/liboxmpl_py.so target/pyext_confirm/oxmpl_py.so; }
